@@ -607,6 +607,8 @@ def execute_single(scn, pristine=None):
     stats["faults"] = dict(run.faults_fired)
     stats["suspensions"] = run.suspensions
     stats["probes"] = {"pristine_probe_hit_cap": sum(1 for v in pristine.values() if v == "ABORT")}
+    stats["state_sigs"] = [common.h64(x) for x in run.states]
+    stats["switch_sigs"] = [common.h64(common.switch_signature(run.log))]
     return {"violations": violations, "digest": run.digest(), "stats": stats, "fired": fired, "engine": engine}
 
 
@@ -738,6 +740,10 @@ def execute(scn):
                 stats["faults"][k] = stats["faults"].get(k, 0) + v
             for k, v in (st.get("probes") or {}).items():
                 stats["probes"][k] = stats["probes"].get(k, 0) + v
+            stats.setdefault("state_sigs", set()).update(st.get("state_sigs") or ())
+            stats.setdefault("switch_sigs", set()).update(st.get("switch_sigs") or ())
+        stats["state_sigs"] = sorted(stats.get("state_sigs") or ())
+        stats["switch_sigs"] = sorted(stats.get("switch_sigs") or ())
         # keep one violation per class to bound the report
         seen = set()
         uniq = []
